@@ -34,7 +34,7 @@ class TokCfg:
     """Tokenizer configuration + the tokens the harness can put into a text."""
 
     def __init__(self, key, tokenizer_str, tokens, synonyms=None, keywords=None, sep=" ",
-                 default_skip=("SPACE",)):
+                 default_skip=("SPACE",), span_matchers=None, wrap=None):
         self.key = key                      # JSON-able identification
         self.tokenizer_str = tokenizer_str
         self.tokens = tuple(tokens)         # ((terminal name, value text), ...): the input alphabet
@@ -43,9 +43,13 @@ class TokCfg:
         self.terms = tuple(dict.fromkeys(n for n, _ in self.tokens))
         self.sep = sep                      # text between two tokens ("" when blanks are tokens of the menu)
         self.default_skip = frozenset(default_skip)   # what skip_tokens=None means for this tokenizer
+        self.span_matchers = span_matchers  # constructor argument span_matchers (multi-line tokens)
+        self.wrap = wrap or {}              # {token name: (opening text, closing text)} around the value
 
     def text(self, toks):
-        return self.sep.join(v for _, v in toks)
+        if not self.wrap:
+            return self.sep.join(v for _, v in toks)
+        return self.sep.join(self.wrap[n][0] + v + self.wrap[n][1] if n in self.wrap else v for n, v in toks)
 
     def valid_input(self, toks):
         """With sep == "" blanks are written by the harness as SPACE tokens of the menu: two adjacent
@@ -101,9 +105,54 @@ def kw_cfg():
                   synonyms={"W": "WORD", "PLUS": "+"}, keywords={("WORD", "if"): "IF"})
 
 
+# characters str.splitlines() treats as line boundaries although they are not "\n"
+EXOTIC_LINE_ENDS = ("\x0c", "\x0b", "\x1c", "\x1d", "\x1e", "\x85", "\u2028", "\u2029", "\r")
+
+
+def span_bodies(max_pieces=2):
+    """Values of the multi-line TEXT token: all strings of <= max_pieces pieces over {p, blank, newline,
+    the exotic line-boundary characters}.  Not generated (the tokenizer documents / shows a lossy reading of
+    them, which is not what this space is about): white space directly in front of a newline (a str input
+    is right-stripped line by line) and empty lines inside the value (leading newline, two newlines in a
+    row)."""
+    pieces = ("p", " ", "\n") + EXOTIC_LINE_ENDS
+    out = []
+    for n in range(max_pieces + 1):
+        for t in itertools.product(pieces, repeat=n):
+            b = "".join(t)
+            if b.startswith("\n") or "\n\n" in b:
+                continue
+            if any(b[i] == "\n" and b[i - 1].isspace() for i in range(1, len(b))):
+                continue
+            out.append(b)
+    return out
+
+
+def span_cfg(max_pieces=2):
+    """Tokenizer with a non-skipped multi-line span token TEXT written <<...>> (constructor argument
+    span_matchers); the value of the token is the text between the marks."""
+    return TokCfg("span", r"(?P<SPACE>\s+)|(?P<TEXT><<)|(?P<a>a)",
+                  [("a", "a")] + [("TEXT", b) for b in span_bodies(max_pieces)],
+                  span_matchers={"TEXT": r"(?P<BODY>[^>]*)>>"}, wrap={"TEXT": ("<<", ">>")})
+
+
+def family_span(nts=("E", "A")):
+    """A handful of tiny grammars over the terminals a and TEXT (the span token)."""
+    e, a = nts
+    t = "TEXT"
+    return [((e, ((t,),)), (a, (("a",),))),
+            ((e, (("a", t), (t,))), (a, (("a",),))),
+            ((e, ((t, a),)), (a, ((), ("a",), (t,)))),
+            ((e, ((a, a),)), (a, ((t,), ("a",)))),
+            ((e, ((t, "a", t), (t, t), (t, "a"))), (a, (("a",),))),
+            ((e, ((a, t),)), (a, ((), ("a", a))))]
+
+
 def cfg_from_key(key):
     if key == "kw":
         return kw_cfg()
+    if key == "span":
+        return span_cfg()
     if key == "blank":
         return blank_cfg()
     return letters_cfg(key)
